@@ -9,6 +9,7 @@ Obligations are data (python dicts in the rule modules):
   src    atoms that must all be in the sink's backward slice
          'F:Adt.field' exact | 'f:field' any-ADT field | 'c:name' call result | 'p:param' | 'd:Const'
   ctx    {'loop': [atoms that the loop iterable must contain]} | {'noloop': True} | {'cond': [atoms]}
+  ctx    {'loop_over_own': [atoms]} -> if the event sits in a loop, the loop iterable must depend on these atoms
   whole  True -> loops named in ctx must range over the whole sequence (no skip/take/step_by/filter/sub-slice)
   why    one line of reason
 """
@@ -332,6 +333,13 @@ class Engine:
                     ok = True
             if not ok:
                 miss.append('ctx:loop-over(%s)' % ','.join(ctx['loop']))
+        if 'loop_over_own' in ctx:
+            # an element-wise check may sit in a loop only if the loop ranges over (the length of) the compared sequence itself:
+            # a bound taken from elsewhere (a configuration number, a height instead of a length) covers only some elements
+            for fr in e.ctx:
+                if fr[0] == 'loop' and missing(fr[1], ctx['loop_over_own']):
+                    miss.append('ctx:element-wise check in a loop whose range is not taken from the compared sequence (%s)' % ','.join(sorted(a for a in flow.flat(fr[1]) if a[:2] in ('p:', 'F:'))[:4]))
+                    break
         if ctx.get('uncond'):
             # no `if` of the anchor's own frames around the event (a check that runs only for some inputs)
             for fr in e.ctx:
